@@ -367,3 +367,53 @@ Proof.
   split; [reflexivity|]. split; [reflexivity|]. split; [apply new_children_only_at_end|].
   split; [apply children_balanced|apply retarget_new_nest].
 Qed.
+
+(** ** the whole of apply() with the UTF-8 re-read (table-indexed on [xml_diff_guard]) *)
+Definition xml_failure_out {D} (fc : list xresult) (original : str) : xapply_out (D := D) :=
+  {| xo_ret := None; xo_file := original; xo_failed := true;
+     xo_unfixed := map (fun f => (f, 0%N)) (xall_findings fc) |}.
+
+Definition xml_reread_statement (g : xml_diff_guard) : Prop :=
+  (* a document that re-reads as UTF-8: the re-read plays no part *)
+  (forall fc D (mkdiff : str -> str -> D) dempty step dry original parse,
+      xml_apply_file fc mkdiff dempty g step dry original parse true = Some (xml_apply fc mkdiff dempty g step dry original parse)) /\
+  (* no edit (or no parse): the re-read is never reached *)
+  (forall fc D (mkdiff : str -> str -> D) dempty step dry original,
+      xml_apply_file fc mkdiff dempty g step dry original None false = Some (xml_apply fc mkdiff dempty g step dry original None) /\
+      forall evs, snd (run_steps step evs) = [] ->
+        xml_apply_file fc mkdiff dempty g step dry original (Some evs) false =
+        Some {| xo_ret := None; xo_file := original; xo_failed := false; xo_unfixed := [] |}) /\
+  match g with
+  | DiffGuardRereadTry =>
+      (* an edited document that is not UTF-8: failure recorded, file untouched, nothing escapes *)
+      (forall fc D (mkdiff : str -> str -> D) dempty step dry original evs,
+          snd (run_steps step evs) <> [] ->
+          xml_apply_file fc mkdiff dempty g step dry original (Some evs) false = Some (xml_failure_out fc original)) /\
+      (forall fc D (mkdiff : str -> str -> D) dempty step dry original parse ok,
+          xml_apply_file fc mkdiff dempty g step dry original parse ok <> None)
+  | NoDiffGuard | DiffGuard =>
+      exists fc step original evs,
+        xml_apply_file fc (fun _ _ => tt) (fun _ => false) g step false original (Some evs) false = None
+  end.
+
+Definition w_xml_evs : list pevent :=
+  [ {| pe_line := 1; pe_col := 0; pe_ev := StartElement [101%N] [] |};
+    {| pe_line := 1; pe_col := 0; pe_ev := EndElement [101%N] |} ].
+Definition w_xml_step := attr_step [] [([101%N], [([122%N], [57%N])])] None false.
+
+Lemma xml_reread_all g : xml_reread_statement g.
+Proof.
+  unfold xml_reread_statement. split; [reflexivity|]. split.
+  - intros fc D mkdiff dempty step dry original. split; [reflexivity|].
+    intros evs H. unfold xml_apply_file, xml_apply. rewrite H.
+    destruct (run_steps step evs) as [out changes] eqn:E. cbn [snd] in H. subst changes. reflexivity.
+  - destruct g.
+    + exists [], w_xml_step, [], w_xml_evs. vm_compute. reflexivity.
+    + exists [], w_xml_step, [], w_xml_evs. vm_compute. reflexivity.
+    + split.
+      * intros fc D mkdiff dempty step dry original evs H. unfold xml_apply_file.
+        destruct (snd (run_steps step evs)); [congruence|reflexivity].
+      * intros fc D mkdiff dempty step dry original parse ok. unfold xml_apply_file.
+        destruct ok; [discriminate|]. destruct parse as [evs|]; [|discriminate].
+        destruct (snd (run_steps step evs)); discriminate.
+Qed.
